@@ -14,10 +14,6 @@ NOT_APPLICABLE = {
            'ConnectionId = Arc<Mutex>); no function contract within reach states "exactly one reply".',
     'C06': 'quantifies over schedules of async tasks; Kani has no scheduler/thread model, Verus would need '
            'permission-typed futures; no per-function contract expresses absence of lost wake-ups.',
-    'C11': 'panic-freedom of ~40 expect("inconsistent state") sites is a corollary of a whole-broker invariant over the '
-           'handler layer, most of which is outside Verus\'s subset. Proved elsewhere, for the verified handlers only: all '
-           'unreachable!/debug_assert! of channel.rs and the calls into them (C05), the expect() sites of '
-           'call_function_reply / abort_call (C02), the bus-listener handlers (C10).',
     'C15': 'fault points x async schedules; pending futures resolve by dropping oneshot/mpsc ends; no '
            'function-level contract.',
     'C16': 'quantifies over schemas and over programs produced by the code generator and derive macros, with '
